@@ -20,6 +20,7 @@ from exabgp.bgp.message.update.nlri.bgpls.tlvs.node import NodeDescriptor
 from exabgp.bgp.message.update.nlri.bgpls.tlvs.srv6sidinformation import Srv6SIDInformation
 from exabgp.bgp.message.update.nlri.qualifier.path import PathInfo
 from exabgp.bgp.message.update.nlri.qualifier.rd import RouteDistinguisher
+from exabgp.protocol.family import SAFI
 from exabgp.util import hexstring
 from exabgp.util.types import Buffer
 
@@ -65,15 +66,18 @@ class SRv6SID(BGPLS):
         self,
         packed: Buffer,
         addpath: PathInfo | None = None,
+        route_d: RouteDistinguisher | None = RouteDistinguisher.NORD,
     ) -> None:
         """Create SRv6SID with complete wire format.
 
         Args:
             packed: Complete wire format including 4-byte header [type(2)][length(2)][payload]
             addpath: AddPath path identifier
+            route_d: Route Distinguisher (for VPN SAFI), NORD if none
         """
-        BGPLS.__init__(self, addpath)
+        BGPLS.__init__(self, addpath, SAFI.bgp_ls_vpn if route_d else SAFI.bgp_ls)
         self._packed = packed
+        self.route_d: RouteDistinguisher | None = route_d
 
     def check(self) -> None:
         """Parse the SRv6 SID descriptors now, so a malformed sub-tlv is refused at the boundary."""
@@ -179,7 +183,7 @@ class SRv6SID(BGPLS):
             raise Notify(3, 10, 'BGP-LS SRv6 SID NLRI has no Local Node descriptor')
 
         # Store complete wire format including header
-        return cls(data)
+        return cls(data, route_d=rd)
 
     # pack_nlri inherited from BGPLS base class - returns self._packed directly
 
@@ -194,11 +198,11 @@ class SRv6SID(BGPLS):
         if not isinstance(other, SRv6SID):
             return False
         # Direct _packed comparison - CODE, proto_id, domain, TLVs all encoded in wire format
-        return self._packed == other._packed
+        return self._packed == other._packed and self.route_d == other.route_d
 
     def __hash__(self) -> int:
         # Direct _packed hash - all wire fields encoded in bytes
-        return hash(self._packed)
+        return hash((self._packed, self.route_d))
 
     def json(self, announced: bool = True, compact: bool = False) -> str:
         nodes = ', '.join(d.json() for d in self.local_node_descriptors)
@@ -211,5 +215,7 @@ class SRv6SID(BGPLS):
                 f'"srv6-sid-descriptors": {json.dumps(self.srv6_sid_descriptors)}',
             ],
         )
+        if self.route_d:
+            content += f', {self.route_d.json()}'
 
         return f'{{ {content} }}'
